@@ -82,6 +82,7 @@ class Profile:
         self.multi_root = True
         self.symbolset = True
         self.kv_roots = True
+        self.child_bias = 3         # tenths: how often a block-valued slot is picked on purpose
         self.avoid = set()          # names of open known findings to avoid by construction
         self.expr_depth = 2
         self.version = None         # only slots/alternatives valid for this version (C07 valid docs)
@@ -119,8 +120,13 @@ class Gen:
         n = ch.int(0, p.max_items)
         used = set()
         singles_used = set()
+        block_keys = [k for k in keys if sl[k].block_child() is not None or sl[k].alts[0].shape in ("kv", "kvinline", "points", "pointslist")
+                      or k == "projection"]
         for _ in range(n):
-            k = ch.choice(keys)
+            if block_keys and depth < p.max_depth and ch.chance(p.child_bias, 10):
+                k = ch.choice(block_keys)
+            else:
+                k = ch.choice(keys)
             if k in used and not p.dups:
                 continue
             slot = sl[k]
